@@ -11,6 +11,7 @@ import itertools
 
 from .. import universe as U
 from ..acc import Acc
+from .. import argforms as AF
 from ..ref.ibd import RefIBD, between_pairs, within_pairs
 from ..ref.trees import NULL, RefTS
 
@@ -307,6 +308,7 @@ def check_call(ctx, kind, sets, mask, ms, mt, exact, sp, ss, via, acc, deep=Fals
         kw["within"] = sets
     elif kind == "between":
         kw["between"] = sets
+    kwc = None
     # omitted / None arguments and the documented defaults are the same thing: both forms occur
     if ms != 0 or (sp and ss):
         kw["min_span"] = ms
@@ -319,8 +321,14 @@ def check_call(ctx, kind, sets, mask, ms, mt, exact, sp, ss, via, acc, deep=Fals
     if ss:
         kw["store_segments"] = ss
     obj = ctx.ts(mask) if via == "ts" else ctx.tables(mask)
+    # the id lists in one of the forms a caller may pass (strided / reversed views, int64, tuples ...)
+    kwc = dict(kw)
+    if kind == "within":
+        kwc["within"] = AF.pick(sets, salt=int(sp) + 2 * int(ss))[1]
+    elif kind == "between":
+        kwc["between"] = [AF.pick(x, salt=i + int(sp))[1] for i, x in enumerate(sets)]
     try:
-        res = obj.ibd_segments(**kw)
+        res = obj.ibd_segments(**kwc)
     except Exception as e:  # noqa
         acc.fail(f"{kind}:call_raised", f"ibd_segments({kw}) raised {e!r}", case())
         return
